@@ -645,20 +645,52 @@ func ruleExactNumerator(rule string, w int, fns []string, why string) func(*Ctx)
 					if !ok || len(r.Results) != 1 {
 						continue
 					}
+					squared := func(q *ssa.BinOp) ssa.Value {
+						sq, ok := q.X.(*ssa.BinOp)
+						if ok && sq.Op == token.MUL && sq.X == sq.Y {
+							return sq.X
+						} else if call, ok := q.X.(*ssa.Call); ok && strings.HasPrefix(calleeName(c, call), "sqr") {
+							return call.Call.Args[0]
+						} else if cv, ok := q.X.(*ssa.Convert); ok {
+							return cv.X
+						}
+						return q.X
+					}
+					var n ssa.Value
 					q, ok := r.Results[0].(*ssa.BinOp)
-					if !ok || q.Op != token.QUO {
+					if ok && q.Op == token.QUO {
+						n = squared(q)
+						pos = q.Pos()
+					} else if hc, isCall := r.Results[0].(*ssa.Call); isCall && c.freshFunc(hc.Call.StaticCallee()) {
+						// the division sits in a helper the reference record does not know (shared with the D variant):
+						// the squared value is the argument bound to the parameter the helper squares
+						h := hc.Call.StaticCallee()
+						for _, hb := range h.Blocks {
+							for _, hin := range hb.Instrs {
+								hr, ok := hin.(*ssa.Return)
+								if !ok || len(hr.Results) != 1 {
+									continue
+								}
+								if hq, ok := hr.Results[0].(*ssa.BinOp); ok && hq.Op == token.QUO {
+									if _, isP := squared(hq).(*ssa.Parameter); !isP && isFloat(squared(hq).Type()) {
+										bad = fmt.Sprintf("the squared cross product is formed in float64 inside %s from operands that were converted one by one: beyond 53 bits a non-zero cross product can round to 0, so a vertex that is NOT collinear passes the epsilon=0 test", c.fname(h))
+										pos = hc.Pos()
+									}
+									if hp, ok := squared(hq).(*ssa.Parameter); ok {
+										for k, pp := range h.Params {
+											if pp == hp && k < len(hc.Call.Args) {
+												n = hc.Call.Args[k]
+												pos = hc.Pos()
+											}
+										}
+									}
+								}
+							}
+						}
+					}
+					if n == nil {
 						continue
 					}
-					sq, ok := q.X.(*ssa.BinOp)
-					n := q.X
-					if ok && sq.Op == token.MUL && sq.X == sq.Y {
-						n = sq.X
-					} else if call, ok := q.X.(*ssa.Call); ok && strings.HasPrefix(calleeName(c, call), "sqr") {
-						n = call.Call.Args[0]
-					} else if cv, ok := q.X.(*ssa.Convert); ok {
-						n = cv.X
-					}
-					pos = q.Pos()
 					switch v := n.(type) {
 					case *ssa.Call:
 						if calleeName(c, v) == "(int128).toFloat64" {
